@@ -1,4 +1,5 @@
 import GopModel.Driver.Loop
 import GopModel.Driver.Walk
+import GopModel.Driver.Span
 open GopModel.Driver
-def main : IO Unit := runDriver (dispatchWith [("walk", handleWalk)])
+def main : IO Unit := runDriver (dispatchWith [("walk", handleWalk), ("span", handleSpan)])
